@@ -325,7 +325,7 @@ def generate(rng, tier):
         "run/list.txt": rng.choice(["good.yaml\n", "good.yaml\nmissing.yaml\n", "", "\x00\n", "good.yaml\n\n"]),
         "home/h.yaml": "a: 3\n" if "a" in feats else "{}\n",
     }
-    w = {"dirs": ["home", "run", "run/dir.yaml"], "files": files, "fifos": ["run/fifo.pipe", "run/fifogood.pipe"], "fifo_content": {"run/fifogood.pipe": files["run/good.yaml"]}, "symlinks": {"run/dangling.yaml": "nothing"}, "cwd": "run", "env": {}}
+    w = {"dirs": ["home", "run", "run/dir.yaml"], "files": files, "fifos": ["run/fifo.pipe", "run/fifogood.pipe"], "fifo_content": {"run/fifogood.pipe": files["run/good.yaml"]}, "fifo_one_shot": True, "symlinks": {"run/dangling.yaml": "nothing"}, "cwd": "run", "env": {}}
     ops = []
     for _ in range(rng.randint(1, 4)):
         m = rng.choice(METHODS)
